@@ -162,11 +162,13 @@ func (rn *runner) directOne(c directCase) {
 	if oldHex == "absent" {
 		oldHex = "-"
 	}
+	d0, i0, had := statKey(path)
 	result, err := plainCall(rn.self, c.Call, path, c.Spec, []string{"GOMAXPROCS=1"})
 	if err != nil {
 		rn.res.Notes = append(rn.res.Notes, "direct case skipped: "+c.key()+": "+err.Error())
 		return
 	}
+	d1, i1, have := statKey(path)
 	final := getFile(path)
 	impl := result + " " + final
 	in := map[string]string{"kind": "direct", "call": c.Call, "spec": c.Spec, "file": c.File}
@@ -174,9 +176,24 @@ func (rn *runner) directOne(c directCase) {
 	rn.res.Count("direct:" + c.Call)
 	var want, modelReq string
 	wantErr := false
+	// the path must go on naming the very file that carries the lock: the library never unlinks
+	// or replaces it (the model gives every client one inode for its path)
+	if had && (!have || d0 != d1 || i0 != i1) {
+		what := "replaced by another file"
+		if !have {
+			what = "removed"
+		}
+		rn.violate("impl-violation", "identity:path-no-longer-names-the-locked-file", "direct identity "+c.Call,
+			fmt.Sprintf("after %s the file was %s: the lock lives on the inode, so callers already queued on the old file and newcomers on the path no longer exclude each other, and the previous contents are not in place (%s)", c.Call, what, c.key()),
+			impl, "", in)
+	}
+	tFails := c.Call == "transform" && c.Spec == "FAIL"
 	switch c.Call {
 	case "transform":
 		switch {
+		case tFails:
+			want = oldHex
+			wantErr = true
 		case strings.HasPrefix(c.Spec, "alias:"):
 			want = aliasValue(c.Spec, oldHex)
 		case strings.HasPrefix(c.Spec, "res:"):
@@ -185,7 +202,11 @@ func (rn *runner) directOne(c directCase) {
 			want = c.Spec
 		}
 		modelReq = fmt.Sprintf("ops transform %s %s", want, c.File)
-		rn.res.Count("direct-result-len:" + lenRel(len(common.UnHex(want)), len(common.UnHex(oldHex))))
+		if tFails {
+			modelReq = fmt.Sprintf("ops transform FAIL %s", c.File)
+		} else {
+			rn.res.Count("direct-result-len:" + lenRel(len(common.UnHex(want)), len(common.UnHex(oldHex))))
+		}
 	case "write":
 		want = readerValue(c.Spec)
 		chunks, rerr := readerModel(c.Spec)
@@ -195,6 +216,11 @@ func (rn *runner) directOne(c directCase) {
 	switch {
 	case result != "ok" && result != "err":
 		rn.violate("impl-violation", c.Call+":crashed", "direct crash "+c.Call, "the call crashed the process: "+c.key(), impl, "", in)
+	case result == "ok" && tFails:
+		rn.violate("impl-violation", "transform:nil-return-although-t-failed", "direct t-failed-ok", "t returned an error but Transform returned nil: "+c.key(), impl, "", in)
+	case result == "err" && tFails && final != want && !(c.File == "absent" && final == "absent"):
+		rn.violate("impl-violation", "transform:t-failed-but-contents-changed", "direct t-failed-changed",
+			fmt.Sprintf("t returned an error, so the previous contents must remain in place; the file held %s (%s) and is now %s", short(oldHex), c.File, short(final)), impl, "err "+want, in)
 	case result == "ok" && wantErr:
 		rn.violate("impl-violation", "write:reader-error-swallowed", "direct swallowed", "the content reader failed but Write returned nil: "+c.key(), impl, "", in)
 	case result == "err" && !wantErr:
@@ -256,7 +282,7 @@ func directCases(rng *common.RNG, tier string) []directCase {
 		}
 	}
 	specs := append(append([]string{}, resSpecs...), aliasSpecs...)
-	specs = append(specs, "-", "7a7a", "res:lit:4142434445464748494a4b4c4d4e4f50")
+	specs = append(specs, "-", "7a7a", "res:lit:4142434445464748494a4b4c4d4e4f50", "FAIL")
 	for _, o := range olds {
 		for _, sp := range specs {
 			cs = append(cs, directCase{"transform", sp, o})
@@ -283,10 +309,15 @@ type limitCase struct {
 	Old, New string // hex (New = the value; for transform what t returns)
 	Helper   string // spec handed to the helper instead of New
 	L        int
+	InsideT  bool // transform only: the limit is set by t itself, not before the call
 }
 
 func (c limitCase) key() string {
-	return fmt.Sprintf("%s %s %s L=%d %s", c.Call, short(c.Old), short(c.New), c.L, c.Helper)
+	k := fmt.Sprintf("%s %s %s L=%d %s", c.Call, short(c.Old), short(c.New), c.L, c.Helper)
+	if c.InsideT {
+		k += " limit-set-inside-t"
+	}
+	return k
 }
 
 func (rn *runner) limitOne(c limitCase) {
@@ -297,7 +328,13 @@ func (rn *runner) limitOne(c limitCase) {
 	if c.Helper != "" {
 		harg = c.Helper
 	}
-	result, tr, hit, err := rn.tracedCall(c.Call, path, harg, "", []string{"GOMAXPROCS=1", fmt.Sprintf("LF_FSIZE=%d", c.L)})
+	env := []string{"GOMAXPROCS=1", fmt.Sprintf("LF_FSIZE=%d", c.L)}
+	if c.InsideT {
+		// the limit is lowered from inside t instead of before the call
+		env = []string{"GOMAXPROCS=1"}
+		harg = fmt.Sprintf("lim:%d:%s", c.L, harg)
+	}
+	result, tr, hit, err := rn.tracedCall(c.Call, path, harg, "", env)
 	if err != nil {
 		rn.res.Notes = append(rn.res.Notes, "size-limit case skipped: "+c.key()+": "+err.Error())
 		return
@@ -318,7 +355,7 @@ func (rn *runner) limitOne(c limitCase) {
 	rn.res.Case("limit "+c.key(), hit || result == "err")
 	rn.res.Count("limit:" + c.Call)
 	rn.res.Count("limit-outcome:" + result)
-	in := map[string]string{"kind": "limit", "call": c.Call, "old": c.Old, "new": c.New, "helper": c.Helper, "L": fmt.Sprint(c.L)}
+	in := map[string]string{"kind": "limit", "call": c.Call, "old": c.Old, "new": c.New, "helper": c.Helper, "L": fmt.Sprint(c.L), "inside": fmt.Sprint(c.InsideT)}
 	isPrefix := func(p, whole string) bool { return p == "-" || (whole != "-" && strings.HasPrefix(whole, p)) }
 	direct := ""
 	switch {
@@ -421,8 +458,11 @@ func (rn *runner) limitPhase() {
 		if p.old != "absent" {
 			lo = len(common.UnHex(p.old))
 		}
-		for _, L := range limitsFor(lo, ln, rn.f.Tier) {
-			rn.limitOne(limitCase{"transform", p.old, p.nw, p.helper, L})
+		for j, L := range limitsFor(lo, ln, rn.f.Tier) {
+			rn.limitOne(limitCase{"transform", p.old, p.nw, p.helper, L, false})
+			if (rn.f.Tier != "quick" || j%3 == 1) && p.old != "absent" {
+				rn.limitOne(limitCase{"transform", p.old, p.nw, p.helper, L, true})
+			}
 		}
 	}
 	for _, w := range [][2]string{{"616263646566", "78797a7b7c"}, {"6162", "3031323334353637"}, {"absent", "787978"}} {
@@ -432,7 +472,7 @@ func (rn *runner) limitPhase() {
 		}
 		for _, L := range ls {
 			for _, call := range []string{"write", "createwrite", "editwrite"} {
-				rn.limitOne(limitCase{call, w[0], w[1], "", L})
+				rn.limitOne(limitCase{call, w[0], w[1], "", L, false})
 			}
 		}
 	}
